@@ -249,30 +249,59 @@ def closeio (ρ : Nat → Reply) (s : St) (name : String) (opt : Option Bool) : 
 
 /-! ## read side, as far as it shares the chain: `find_rio_in` + one `hawk_rtx_readio`
 under the harness contract "every READ reply is one complete record", so the input buffer is
-empty at every getline boundary. -/
+empty at every getline boundary and the record buffer is empty whenever the stream is at EOF. -/
+
+/-- the `while (1)` loop of `hawk_rtx_readio` with an empty input buffer and an empty record buffer.
+`eof` mirrors `p->in.eof`.  `con` = the input is the console (`in_type == HAWK_IN_CONSOLE`), the only
+input made of several streams: at EOF `switch_to_next_in_stream` → `hawk_rtx_nextio_read` asks the handler
+for the NEXT stream (≥1: `in.eof` cleared, go on reading; 0: `in.eos` set, return 0; <0: return -1); other
+inputs return 0 at EOF.  (`hawk_rtx_nextio_read` finds the same node again and its own `in.eos` test cannot
+fire: `in.eos` is tested on entry of `hawk_rtx_readio` and only set right before returning.)
+
+A handler answering READ→0, NEXT→1, READ→0, NEXT→1, … keeps the C in this loop forever.  The model makes
+that explicit: `fuel` bounds the number of times the loop body is entered and running out of fuel yields
+the result `-2` = "has not returned" (no real return value of the C is -2). -/
+def readLoop (ρ : Nat → Reply) (con : Bool) (sid : Nat) (key : Key) : Nat → Bool → St → St × Int
+  | 0, _, s => (s, -2)
+  | fuel + 1, true, s =>
+    if !con then (s, 0)
+    else match ρ s.calls with
+      | .fail => (s.emit (.nx sid key .fail), -1)
+      | .eof =>
+        let s1 := s.emit (.nx sid key .eof)
+        ({ s1 with chain := modifyFirst (hasKey key) (fun y => { y with inEos := true }) s1.chain }, 0)
+      | .accept j =>
+        let s1 := s.emit (.nx sid key (.accept j))
+        readLoop ρ con sid key fuel false
+          { s1 with chain := modifyFirst (hasKey key) (fun y => { y with inEof := false }) s1.chain }
+  | fuel + 1, false, s =>
+    match ρ s.calls with
+    | .fail => (s.emit (.rd sid key .fail), -1)
+    | .eof =>
+      let s1 := s.emit (.rd sid key .eof)
+      readLoop ρ con sid key fuel true
+        { s1 with chain := modifyFirst (hasKey key) (fun y => { y with inEof := true }) s1.chain }
+    | .accept j => (s.emit (.rd sid key (.accept j)), 1)
 
 /-- the body of `hawk_rtx_readio` once the node is known -/
-def readRec (ρ : Nat → Reply) (s1 : St) (x : Strm) : St × Int :=
+def readRec (ρ : Nat → Reply) (fuel : Nat) (con : Bool) (s1 : St) (x : Strm) : St × Int :=
   if x.inEos then (s1, 0)
-  else if x.inEof then (s1, 0)
-  else match ρ s1.calls with
-    | .fail => (s1.emit (.rd x.sid x.key .fail), -1)
-    | .eof =>
-      let s2 := s1.emit (.rd x.sid x.key .eof)
-      ({ s2 with chain := modifyFirst (hasKey x.key) (fun y => { y with inEof := true }) s2.chain }, 0)
-    | .accept j => (s1.emit (.rd x.sid x.key (.accept j)), 1)
+  else readLoop ρ con x.sid x.key fuel x.inEof s1
+
+def InKind.isConsole : InKind → Bool
+  | .console => true | _ => false
 
 /-- `find_rio_in` (open on miss, new node at the head of the chain) followed by one read -/
-def readio (ρ : Nat → Reply) (s : St) (ik : InKind) (name : String) : St × Int :=
+def readio (ρ : Nat → Reply) (fuel : Nat) (s : St) (ik : InKind) (name : String) : St × Int :=
   let k := ik.key name
   match findKey s.chain k with
-  | some x => readRec ρ s x
+  | some x => readRec ρ fuel ik.isConsole s x
   | none =>
     match ρ s.calls with
     | .fail => (s.emit (.opn 0 k ik.mode false), -1)
     | _ =>
       let x : Strm := { key := k, mode := ik.mode, sid := s.nopen + 1 }
-      readRec ρ { s.emit (.opn x.sid k ik.mode true) with chain := x :: s.chain, nopen := s.nopen + 1 } x
+      readRec ρ fuel ik.isConsole { s.emit (.opn x.sid k ik.mode true) with chain := x :: s.chain, nopen := s.nopen + 1 } x
 
 /-! ## `hawk_rtx_flushallios` (return values ignored) and `hawk_rtx_clearallios` -/
 
@@ -295,7 +324,8 @@ inductive Op
   | flush (ok : OutKind) (name : Option String)
   | next (ok : OutKind) (name : String)
   | close (name : String) (opt : Option Bool)
-  | read (ik : InKind) (name : String)
+  /-- `fuel`: see `readLoop` -/
+  | read (ik : InKind) (name : String) (fuel : Nat)
   | flushall
   deriving Repr
 
@@ -307,7 +337,7 @@ def step (ρ : Nat → Reply) (s : St) : Op → St × Int
   | .flush ok name => let r := flushio ρ s ok name; (r.1, r.2.code)
   | .next ok name => nextioWrite ρ s ok name
   | .close name opt => closeio ρ s name opt
-  | .read ik name => readio ρ s ik name
+  | .read ik name fuel => readio ρ fuel s ik name
   | .flushall => (flushall ρ s, 0)
 
 /-- run a history; the results come out in program order -/
@@ -325,6 +355,8 @@ structure Cfg where
   tolerant : Bool := false
   ofs : List Char := [' ']
   ors : List Char := ['\n']
+  /-- bound on the console read loop of one getline, see `readLoop` -/
+  readFuel : Nat := 64
   deriving Repr
 
 inductive Stmt
@@ -340,8 +372,9 @@ inductive Stmt
   | nextofile
   deriving Repr
 
-/-- result of a statement: a value, nothing, or a run error that aborts the program -/
-inductive SRes | val (v : Int) | unit | runerr
+/-- result of a statement: a value, nothing, a run error that aborts the program, or — only when
+`Cfg.readFuel` runs out in a console getline — "the C is still inside its read loop" -/
+inductive SRes | val (v : Int) | unit | runerr | hang
   deriving DecidableEq, Repr
 
 /-- the sequence of `hawk_rtx_writeio*` calls `run_print` makes: (bytes?, data) -/
@@ -393,15 +426,18 @@ def stmt (ρ : Nat → Reply) (cfg : Cfg) (s : St) : Stmt → St × SRes
   | .fflush name =>
     let r := fflushFold ρ name [.file, .apfile, .pipe, .rwpipe] s 1
     (r.1, .val (if r.2 ≠ 0 then -1 else 0))
-  | .getline ik name => let r := readio ρ s ik name; (r.1, .val (if r.2 ≤ -1 then -1 else r.2))
+  | .getline ik name =>
+    let r := readio ρ cfg.readFuel s ik name
+    (r.1, if r.2 = -2 then .hang else .val (if r.2 ≤ -1 then -1 else r.2))
   | .nextofile => let r := nextioWrite ρ s .console ""; (r.1, if r.2 ≤ -1 then .runerr else .unit)
 
-/-- run the statements of a BEGIN block until a run error; `true` = aborted by a run error -/
+/-- run the statements of a BEGIN block until a run error; `true` = the block did not run to its end
+(a run error, or a getline that ran out of `readFuel`) -/
 def runStmts (ρ : Nat → Reply) (cfg : Cfg) : List Stmt → St → St × Bool
   | [], s => (s, false)
   | st :: rest, s =>
     let r := stmt ρ cfg s st
-    if r.2 = .runerr then (r.1, true) else runStmts ρ cfg rest r.1
+    if r.2 = .runerr ∨ r.2 = .hang then (r.1, true) else runStmts ρ cfg rest r.1
 
 /-- `hawk_rtx_loop` (BEGIN block, then flush everything) -/
 def loop (ρ : Nat → Reply) (cfg : Cfg) (prog : List Stmt) : St × Bool :=
